@@ -436,6 +436,9 @@ def run(R):
                 ctx_name = bytes(rng.getrandbits(8) for _ in range(rng.choice((1, 5, 32, 64))))
             if rng.random() < 0.4:
                 ctx_engine = bytes([0x80]) + bytes(rng.getrandbits(8) for _ in range(rng.randint(4, 31)))
+                if rng.random() < 0.25:
+                    # zero octets only / a leading zero octet / printable digits
+                    ctx_engine = rng.choice((b"\x00", bytes(5), bytes(12), bytes(32), b"\x00\x80\x00\x01\x07", b"0", b"00000"))
         rid = rid_patched = None
         r = rng.random()
         if r < 0.35:
